@@ -438,7 +438,9 @@ def roots_model(rng):
 def one_run(spec, rng, res, model, gitdir, d, sel, roots):
     binary = spec["sizer"]
     names = rng.choice(spec.get("names_modes", ["full"]))
-    argv = ["--json", "--json-version=1", "--no-progress", "--show-refs", "--names=" + names] + sel + [sp for sp, _ in roots]
+    names_via_config = rng.random() < 0.33
+    argv = ["--json", "--json-version=1", "--no-progress", "--show-refs"] + ([] if names_via_config else ["--names=" + names]) + \
+        sel + [sp for sp, _ in roots]
     # ambient settings that must not matter because every family is fixed by an explicit option: gitconfig sizer.*
     # values (command scope) and a chatty git (GIT_TRACE output on the children's stderr)
     amb = {}
@@ -446,10 +448,17 @@ def one_run(spec, rng, res, model, gitdir, d, sel, roots):
         kv = [("sizer.names", rng.choice(["none", "hash", "full"])), ("sizer.jsonVersion", rng.choice(["1", "2"])),
               ("sizer.progress", rng.choice(["true", "false"])), ("sizer.threshold", rng.choice(["0", "30", "2.5"]))]
         kv = rng.sample(kv, rng.randint(1, 4))
+        if names_via_config:
+            kv = [x for x in kv if x[0] != "sizer.names"]
         amb["GIT_CONFIG_COUNT"] = str(len(kv))
         for i_, (k_, v_) in enumerate(kv):
             amb["GIT_CONFIG_KEY_%d" % i_] = k_
             amb["GIT_CONFIG_VALUE_%d" % i_] = v_
+    if names_via_config:
+        n_ = int(amb.get("GIT_CONFIG_COUNT", "0"))
+        amb["GIT_CONFIG_KEY_%d" % n_] = "sizer.names"
+        amb["GIT_CONFIG_VALUE_%d" % n_] = names
+        amb["GIT_CONFIG_COUNT"] = str(n_ + 1)
     if rng.random() < 0.15:
         amb["GIT_TRACE"] = "1"
     if rng.random() < 0.12 and getattr(model, "commits", None):
@@ -587,7 +596,7 @@ def one_run(spec, rng, res, model, gitdir, d, sel, roots):
     wit_j = {k: (o, (dsc if dsc is None or "�".encode() not in dsc else None)) for k, (o, dsc) in wit.items()}
     judge_witnesses(ex, gitdir, wit_j, wf, names)
     if spec.get("want_table") and names != "none":
-        argv2 = ["-v", "--no-progress", "--names=" + names] + sel + [sp for sp, _ in roots]
+        argv2 = ["-v", "--no-progress"] + ([] if names_via_config else ["--names=" + names]) + sel + [sp for sp, _ in roots]
         plan2 = None
         if plan is not None:
             plan2 = R.make_plan(pdir + "t", [{"sig": "rev-list", "ord": -1, "mode": "permute", "seed": rng.getrandbits(31)}])
